@@ -52,9 +52,9 @@ Fixpoint positions_from (f : pkg -> bool) (inv : inventory) (i : nat) : list nat
   | k :: r => if f k then i :: positions_from f r (S i) else positions_from f r (S i)
   end.
 Definition has_type_name (t n : bytes) (k : pkg) : bool :=
-  match k_purl k with Some p => beq (p_type p) t && beq (p_name p) n | None => false end.
+  match k_purl k with Some p => beq t (p_type p) && beq n (p_name p) | None => false end.
 Definition has_type (t : bytes) (k : pkg) : bool :=
-  match k_purl k with Some p => beq (p_type p) t | None => false end.
+  match k_purl k with Some p => beq t (p_type p) | None => false end.
 Definition spec_specific (inv : inventory) (name t : bytes) : list nat := positions_from (has_type_name t name) inv 0.
 Definition spec_of_type (inv : inventory) (t : bytes) : list nat := positions_from (has_type t) inv 0.
 
